@@ -204,19 +204,20 @@ func (m *Cert) checkBlock(c *vnet.Cluster, n *vnet.Node, e *vnet.Event) {
 		m.inc("certs-with-early-invalid-commits")
 	}
 	// extends the application's tip
-	if b.Idx != n.Height()+1 || b.Prev != n.TipHash() {
-		m.fail(c, "not-extending-tip", "n%d handed block index=%d prev=%s while ledger height=%d tip=%s", n.ID, b.Idx, b.Prev, n.Height(), n.TipHash())
+	// (the tip the application reported at the latest Start/Reset: the ledger may have moved on since)
+	if b.Idx != n.InitHeight+1 || b.Prev != n.InitTip {
+		m.fail(c, "not-extending-tip", "n%d handed block index=%d prev=%s while the ledger tip reported at its latest (re)initialisation was height=%d tip=%s", n.ID, b.Idx, b.Prev, n.InitHeight, n.InitTip)
 	}
 	// is exactly the view's proposal
 	if p := m.proposal(c, n, "block acceptance"); p != nil {
-		exp := c.BlockFor(p, n.TipHash())
+		exp := c.BlockFor(p, n.InitTip)
 		req := p.Body.(*vnet.PrepReq)
 		if exp.Hash() != b.Hash() || b.Ts != req.Ts || b.Nonce != req.Nc {
 			m.fail(c, "block-differs-from-proposal", "n%d accepted block %s (ts=%d nonce=%d tx=%d) but proposal [%s] yields %s", n.ID, b.Hash(), b.Ts, b.Nonce, len(b.TxH), p.Short(), exp.Hash())
 		}
 		want := req.Hashes
 		if isAMEV(c, b.Idx) {
-			hd := vnet.HeaderFor(p, n.TipHash())
+			hd := vnet.HeaderFor(p, n.InitTip)
 			want = append(append([]vnet.H(nil), req.Hashes...), vnet.EnvelopeOf(&hd).Hash())
 		}
 		if !sameHashes(want, b.Transactions()) {
@@ -277,7 +278,7 @@ func (m *Cert) checkPreBlock(c *vnet.Cluster, n *vnet.Node, e *vnet.Event) {
 		m.fail(c, "preblock-below-enabling-height", "n%d ProcessPreBlock at height %d, enabling height %d", n.ID, d.BlockIndex, c.Cfg.AMEV)
 	}
 	if p := m.proposal(c, n, "pre-block hand-over"); p != nil {
-		exp := c.PreBlockFor(p, n.TipHash())
+		exp := c.PreBlockFor(p, n.InitTip)
 		if exp.Hash() != pb.Hash() {
 			m.fail(c, "preblock-differs-from-proposal", "n%d pre-block %s but proposal [%s] yields %s", n.ID, pb.Hash(), p.Short(), exp.Hash())
 		}
@@ -309,6 +310,13 @@ func (m *Agree) End(c *vnet.Cluster) {
 			byH[c.Cfg.BaseHeight+uint32(i)+1] = append(byH[c.Cfg.BaseHeight+uint32(i)+1], acc{n.ID, b.Hash()})
 		}
 		m.add("honest-decisions", int64(len(n.Accepted)))
+	}
+	for _, n := range c.Nodes {
+		if honestOracleNode(n) {
+			for _, lf := range n.LateForks {
+				m.fail(c, "fork", "n%d decided block %s for height %d after its ledger had got %s for that height from its peers", n.ID, lf[1].Hash(), lf[1].Idx, lf[0].Hash())
+			}
+		}
 	}
 	for h, l := range byH {
 		m.inc("heights-compared")
